@@ -6,6 +6,7 @@
 package imps
 
 import (
+	"regexp"
 	"bytes"
 	"fmt"
 	"go/token"
@@ -34,6 +35,9 @@ type Scenario struct {
 	// rendered as fragments with RenderWithFile(w, file), last one first — the File meets the paths in another
 	// order than its body has them.
 	Preview int `json:"preview,omitempty"`
+	// LateBody (staged scenarios whose settings are all early): the last LateBody body statements are added
+	// to the File only after it has been rendered once.
+	LateBody int `json:"latebody,omitempty"`
 }
 
 // StagedModel is the model of a staged scenario (see Scenario.Split).
@@ -70,6 +74,12 @@ func (failingWriter) Write(p []byte) (int, error) { return 0, fmt.Errorf("writer
 
 // RenderStaged performs the staged use described at Scenario.Split.
 func (sc *Scenario) RenderStaged() ([]byte, error) {
+	out, _, err := sc.renderStaged()
+	return out, err
+}
+
+// renderStaged also returns the outputs of the fragment previews.
+func (sc *Scenario) renderStaged() ([]byte, []string, error) {
 	k := sc.Split - 1
 	if k > len(sc.File.Ops) {
 		k = len(sc.File.Ops)
@@ -77,12 +87,23 @@ func (sc *Scenario) RenderStaged() ([]byte, error) {
 	early := sc.File.Clone()
 	late := early.Ops[k:]
 	early.Ops = early.Ops[:k]
-	f := recipe.BuildFile(early)
-	for i, k := len(early.Body)-1, 0; i >= 0 && k < sc.Preview; i, k = i-1, k+1 {
-		if n := early.Body[i]; n != nil && n.Kind == recipe.KStmt {
+	var lateBody []*recipe.Node
+	if n := sc.LateBody; n > 0 && n <= len(early.Body) {
+		lateBody = early.Body[len(early.Body)-n:]
+		early.Body = early.Body[:len(early.Body)-n]
+	}
+	b := &recipe.Builder{}
+	f := b.File(early)
+	var previews []string
+	all := append(append([]*recipe.Node{}, early.Body...), lateBody...)
+	for i, k := len(all)-1, 0; i >= 0 && k < sc.Preview; i, k = i-1, k+1 {
+		if n := all[i]; n != nil && n.Kind == recipe.KStmt {
 			func() {
 				defer func() { _ = recover() }()
-				_ = (&recipe.Builder{}).Stmt(n).RenderWithFile(&bytes.Buffer{}, f)
+				buf := &bytes.Buffer{}
+				if (&recipe.Builder{}).Stmt(n).RenderWithFile(buf, f) == nil {
+					previews = append(previews, buf.String())
+				}
 			}()
 		}
 	}
@@ -92,11 +113,14 @@ func (sc *Scenario) RenderStaged() ([]byte, error) {
 	for i := range late {
 		recipe.ApplyFileOp(f, &late[i])
 	}
+	for _, n := range lateBody {
+		b.AddToFile(f, n)
+	}
 	buf := &bytes.Buffer{}
 	if err := f.Render(buf); err != nil {
-		return nil, err
+		return nil, previews, err
 	}
-	return buf.Bytes(), nil
+	return buf.Bytes(), previews, nil
 }
 
 // Model is what the scenario's File configuration means, computed
@@ -190,6 +214,8 @@ type Outcome struct {
 	Rep       *impcheck.Report
 	Model     *Model
 	Markers   map[string]string
+	// Previews: outputs of the fragment renders made against the File before its first render (staged scenarios)
+	Previews []string
 }
 
 // Render builds the scenario's File with the baseline builder and renders it.
@@ -263,7 +289,7 @@ func (sc *Scenario) runWith(warm bool, warmFile *recipe.File) (*Outcome, error) 
 	case warm:
 		src, err = sc.RenderAfterWarmupIn(warmFile)
 	case sc.Split > 0:
-		src, err = sc.RenderStaged()
+		src, o.Previews, err = sc.renderStaged()
 	default:
 		src, err = sc.Render()
 	}
@@ -327,6 +353,44 @@ func (o *Outcome) AssertResolution() error {
 	}
 	if len(o.Rep.TypeErrors) > 0 {
 		return o.fail("output does not type-check against the fabricated packages: %s", strings.Join(o.Rep.TypeErrors, "; "))
+	}
+	return o.assertPreviews()
+}
+
+var markerRe = regexp.MustCompile(`(?:([\pL_][\pL\pN_]*)\s*\.\s*)?\b([STF][0-9]+)\b`)
+
+// assertPreviews: what a fragment rendered against the File showed before the File's first render is
+// what the File itself shows: local and dot-imported paths bare, every other path under the name the
+// File's import block gives it.
+func (o *Outcome) assertPreviews() error {
+	if len(o.Previews) == 0 || o.Rep == nil {
+		return nil
+	}
+	final := map[string]string{} // path -> qualifier in the File's output
+	for _, u := range o.Rep.Uses {
+		final[o.Markers[u.Marker]] = u.Qualifier
+	}
+	for _, pv := range o.Previews {
+		for _, m := range markerRe.FindAllStringSubmatch(pv, -1) {
+			q, marker := m[1], m[2]
+			p, ok := o.Markers[marker]
+			if !ok {
+				continue
+			}
+			bare := o.Model.IsLocal(p) || o.Model.Dot[p]
+			if bare {
+				if q != "" {
+					return o.fail("a fragment rendered with RenderWithFile(w, file) before the File's first render shows the local / dot-imported path %q as %s.%s\n--- fragment ---\n%s", p, q, marker, pv)
+				}
+				continue
+			}
+			if q == "" {
+				return o.fail("a fragment rendered with RenderWithFile(w, file) shows path %q (neither local nor dot-imported) bare: %s\n--- fragment ---\n%s", p, marker, pv)
+			}
+			if fq, used := final[p]; used && fq != q {
+				return o.fail("a fragment rendered with RenderWithFile(w, file) before the File's first render called path %q %q; the File's own output calls it %q\n--- fragment ---\n%s", p, q, fq, pv)
+			}
+		}
 	}
 	return nil
 }
@@ -404,7 +468,7 @@ func (o *Outcome) AssertExactImports() error {
 			return o.fail("import %q (%s) is unused", imp.Path, imp.Name)
 		}
 	}
-	return nil
+	return o.assertPreviews()
 }
 
 // AssertLegalNames (C05): names are pairwise distinct legal identifiers.
@@ -471,7 +535,7 @@ func (o *Outcome) AssertLegalNames() error {
 		}
 		names[eff] = imp.Path
 	}
-	return nil
+	return o.assertPreviews()
 }
 
 // AssertLocalDot (C06).
@@ -525,5 +589,5 @@ func (o *Outcome) AssertLocalDot() error {
 			return o.fail("marker %s built with %q resolves to %q", u.Marker, p, u.Path)
 		}
 	}
-	return nil
+	return o.assertPreviews()
 }
